@@ -92,6 +92,7 @@ func checkC13(c *Ctx, r *Result, tier string) {
 	writesSeen := 0
 	c13Atomics(c, r, funcs)
 	c13SharedProvider(c, r)
+	c13PoolReleasedOnce(c, r, funcs)
 	for _, fn := range funcs {
 		perPkg[c.PkgOf(fn)]++
 		key := c.FuncKey(fn)
